@@ -702,7 +702,19 @@ pub fn c07<T: Full>(g: &mut Gen, b: &Budget, out: &mut Sink) {
         // adversarial length prefixes at every 4-byte window (all of them for short encodings)
         let n = bs.len();
         let wins: Vec<usize> = if n >= 4 {
-            if n - 3 <= 24 || b.thorough { (0..n - 3).collect() } else { (0..12).map(|_| g.below((n - 3) as u64) as usize).collect() }
+            // every window of short encodings; a sample (plus the first windows, where the outer
+            // length prefixes live) of long ones — the number of inputs stays linear in the budget
+            let all_upto = if b.thorough { 400 } else { 24 };
+            if n - 3 <= all_upto {
+                (0..n - 3).collect()
+            } else {
+                let k = if b.thorough { 64 } else { 12 };
+                let mut w: Vec<usize> = (0..k).map(|_| g.below((n - 3) as u64) as usize).collect();
+                if b.thorough {
+                    w.extend(0..16);
+                }
+                w
+            }
         } else {
             vec![]
         };
